@@ -285,6 +285,11 @@ class _FilePersistence(_ConcretePersistence):
                     if filtered_data_file:
                         filtered_data_file.write(line)
 
+                    # comment lines are never written inside a data point: drop what
+                    # an interrupted session may have left behind
+                    data_point = None
+                    previous_run_id = None
+
                     if line.startswith(_METADATA_BENCHMARK):
                         rest_line = line[len(_METADATA_BENCHMARK):]
                         bench_id, bench_json = rest_line.split("=", 1)
